@@ -102,7 +102,7 @@ def main() -> int:
     ev.rule = ("names: sampled code points of every Unicode general category (+ all of Latin-1 in thorough, + the \\w-but-not-XID set) in leading / inner / trailing position, empty and delimiter-only strings, keywords, soft keywords, "
                "builtins and case variants, the fixed hostile list; each in 9 naming slots (schema key, property, enum-typed property, query / header parameter, operationId, tag, enum value, inline title); colliding sets of size 2-4 in 8 "
                "scopes; field_prefix in {field_, f, attr_, _}. Oracle: every name in the recorded manifest and every path component is a valid non-keyword identifier, stable under NFKC; per scope no silent merge. "
-               "distinct = distinct (name class, slot / scope, prefix) signatures")
+               "distinct = distinct (name or colliding set, slot / scope, prefix) cases that were generated")
     test_names = set(names.HOSTILE_FIXED) | set(keyword.kwlist) | set(keyword.softkwlist) | {"", " ", "-", "_", "__", "...", "- -", ".-_", "1", "123abc", "a" * 200}
     cps = names.codepoint_samples(r, per_category=2 if quick else 6)
     if not quick:
@@ -243,7 +243,8 @@ def main() -> int:
                 # distinct document tags mapping to one package is a merge of the scope 'tags'
                 if len(tags) < len(group):
                     ev.count("tag_groups_sharing_a_package")  # tags themselves are not one of the statement's scopes; the operations inside are checked above
-        ev.seen(("C09", kind, ncls, slot, pre))
+        ev.seen(("C09", kind, X if kind == "name" else tuple(X), slot, pre))
+        ev.count("name_class:" + ncls)
         if len(ev.samples) < 4 and kind == "name" and ncls == "nonascii" and inventory:
             ev.sample({"name": X, "slot": slot, "derived": [n for _, n in inventory if n not in ("Plain", "plain", "a", "q", "plain_op")][:5]})
     vd.inconclusive_if(ev.counters.get("names_walked", 0) < 2000, "too few names walked")
